@@ -51,11 +51,17 @@ OffsetRepresentable(tokens, v) ==
 DateRepresentable(tokens, v, tpl, textOk) ==
   LET absYear == HasTok(tokens, {"uuuu", "uuu", "uu", "u"})
       yoe == HasTok(tokens, {"yyyy"})
+      \* a two-digit year of era is read back into the template's century, or the century before it when the two digits
+      \* exceed the pattern's two-digit-year maximum (and the template is not in the first centuries)
+      yy == HasTok(tokens, {"yy"})
+      yyCentury == (tpl.yoe \div 100) - (IF (v.yoe % 100) > v.yymax /\ (tpl.yoe \div 100) > 1 THEN 1 ELSE 0)
+      yyOk == v.yoe = (v.yoe % 100) + 100 * yyCentury
       era == HasTok(tokens, {"g", "gg"}) /\ textOk
       yearOk == \/ absYear
                 \/ yoe /\ era
                 \/ yoe /\ ~era /\ v.era = tpl.era
-                \/ ~yoe /\ ~absYear /\ v.y = tpl.y
+                \/ yy /\ ~yoe /\ yyOk /\ (era \/ v.era = tpl.era)
+                \/ ~yoe /\ ~yy /\ ~absYear /\ v.y = tpl.y
       monthOk == \/ HasTok(tokens, {"M", "MM"})
                  \/ HasTok(tokens, {"MMM", "MMMM"}) /\ textOk /\ v.m <= 12
                  \/ ~HasTok(tokens, {"M", "MM", "MMM", "MMMM"}) /\ v.m = tpl.m
@@ -100,7 +106,7 @@ Understood(tokens, vocab) == \A i \in 1..Len(tokens) : tokens[i] \in vocab
 TimeVocab == {"H", "HH", "h", "hh", "m", "mm", "s", "ss", "t", "tt", ":", ".", " ", "'at'", "\\h", "-", "/", "'T'", ",", "'.'", "\\."}
              \cup AllFrac
 OffsetVocab == {"+", "-", "H", "HH", "m", "mm", "s", "ss", ":", "'x'", "\\:", " "}
-DateVocab == {"yyyy", "uuuu", "uuu", "uu", "u", "M", "MM", "MMM", "MMMM", "d", "dd", "ddd", "dddd", "g", "gg", "c", "/", "-", " ", "'of'", ",", "\\d", "'T'", ":", "."}
+DateVocab == {"yyyy", "yy", "uuuu", "uuu", "uu", "u", "M", "MM", "MMM", "MMMM", "d", "dd", "ddd", "dddd", "g", "gg", "c", "/", "-", " ", "'of'", ",", "\\d", "'T'", ":", "."}
 Numeric == {"H", "HH", "h", "hh", "m", "mm", "s", "ss", "yyyy", "uuuu", "uuu", "uu", "u", "M", "MM", "d", "dd", "D", "DD", "S", "SS", "y", "yy"}
            \cup BareFrac
 \* no two digit-producing fields touch (a fraction introduced by its own '.' or ';' is delimited by it)
